@@ -49,13 +49,16 @@ def run(rep, tier):
                 f.write(json.dumps(c, separators=(",", ":")) + "\n")
                 rep.case(key=json.dumps([c["nr"], c["nt"], c["nc"], c["auto"], c["rad"], c["ang"]]), nontrivial=c["nr"] * c["nt"] > 4)
         rep.sample({k: r.cases[len(r.cases) // 2][k] for k in ("nr", "nt", "nc", "auto", "rad", "ang", "multi")})
-        rc, recs, out = vlib.run_driver(exe, [path], timeout=2400)
+        tmp = os.path.join(vlib.BUILD, "tmp_c17")
+        os.makedirs(tmp, exist_ok=True)
+        rc, recs, out = vlib.run_driver(exe, [path, "grid", tmp], timeout=2400)
         summ = [x for x in recs if x.get("summary")]
         if rc != 0 or not summ:
             rep.violation("driver:crash", "grid driver crashed (rc=%s): %s" % (rc, out[-600:]), replay={"tables": path})
             continue
         rep.traces(summ[0]["tables"])
         rep.cov["real_grids_constructed"] = rep.cov.get("real_grids_constructed", 0) + summ[0]["grids"]
+        rep.cov["grids_through_file_constructor"] = rep.cov.get("grids_through_file_constructor", 0) + summ[0].get("file_grids", 0)
         for x in recs:
             if x.get("fail"):
                 what = x["what"]
